@@ -159,9 +159,12 @@ fn skip_until_next_comma(input: ParseStream) -> proc_macro2::TokenStream {
             let mut stuff = quote!();
             let mut rest = *cursor;
             while let Some((tt, next)) = rest.token_tree() {
-                if let Some((TokenTree::Punct(punct), _)) = next.token_tree() {
+                // Stop in front of the comma. This also covers a key without value, where the
+                // comma is the very first token (`#[serde(other, rename = "..")]`) - consuming it
+                // would swallow the attribute after it.
+                if let TokenTree::Punct(punct) = &tt {
                     if punct.as_char() == ',' {
-                        return Ok((stuff, next));
+                        return Ok((stuff, rest));
                     }
                 }
 
